@@ -14,13 +14,17 @@ TFc(ap, c, t) == [startOK |-> ap.start = "absent" \/ c.start - t <= c.skew,
                   skewOK  |-> c.ctime - t <= c.skew /\ t - c.ctime <= c.skew]
 \* each request mints its own authenticator, so nothing is a replay within a line
 May(es, e, s, t) == MayServe(es, e.q, s, TFc(e.q.ap, e.conc, t), FALSE)
+\* the identity of an accepted AP-REQ: realm and (see TraceC01!NameOK) the ticket's client name or the account name of its verified PAC
+IdOK(q, o, s) == /\ o.idRealmOK
+                 /\ \/ o.idNameSrc = "ticket"
+                    \/ o.idNameSrc = "pac" /\ q.ap.pac = "valid" /\ s.decodePAC
 ReqOK(e, es, s) ==
   LET q == e.q  o == e.obs IN
   /\ o.outcome \in {"served", "refused", "error5xx"}                      \* never a panic, never another status
   /\ o.innerRan <=> o.outcome = "served"
   /\ o.outcome = "served" =>
         /\ May(es, e, s, o.t0) \/ May(es, e, s, o.t1)
-        /\ IF InSession(es, q) THEN o.idIsSessions ELSE o.idIsSealed       \* the identity in the context is the accepted one
+        /\ IF InSession(es, q) THEN o.idIsSessions ELSE IdOK(q, o, s)      \* the identity in the context is the accepted one
   /\ o.outcome = "refused" => o.status = 401 /\ o.challengeNegotiate
   /\ o.outcome = "error5xx" => q.store \in {"getFails", "newFails"}
   \* no token-verification API reports success for a token that does not contain an accepted AP-REQ
@@ -31,7 +35,8 @@ Est(e, es) == es \/ (e.obs.outcome = "served" /\ ~InSession(es, e.q) /\ Establis
 RECURSIVE Walk(_, _, _)
 Walk(x, i, es) == IF i > Len(x.reqs) THEN TRUE
                    ELSE ReqOK(x.reqs[i], es, x.settings) /\ Walk(x, i + 1, Est(x.reqs[i], es))
-LineOK(x) == Walk(x, 1, FALSE)
+\* a line {ev: "race"} is a report of Go's race detector naming gokrb5 code, seen during the concurrent phase: never acceptable
+LineOK(x) == IF "ev" \in DOMAIN x THEN FALSE ELSE Walk(x, 1, FALSE)
 TInit == LT!Init /\ AInit
 TNext == LT!Next /\ UNCHANGED avars
 Check == ~LT!Active \/ LineOK(Tr[l]) \/ PrintT(<<"BADLINE", l>>)
